@@ -68,7 +68,11 @@ func (s *badgerStore) CheckAndSaveNonce(ID string, nonce int64) error {
 		}
 
 		if s.nonceExpire > 0 {
-			return setExpiringItem(txn, key, &nonce, s.nonceExpire)
+			// Keep the nonce until it is itself too old to be accepted again
+			// (a nonce dated in the future outlives nonceExpire from now);
+			// the extra second covers badger's whole-second expiry.
+			expire := time.Unix(0, nonce).Add(s.nonceExpire).Sub(time.Now()) + time.Second
+			return setExpiringItem(txn, key, &nonce, expire)
 		}
 		return setItem(txn, key, &nonce)
 	})
